@@ -603,8 +603,14 @@ pub fn worker(args: &[String]) -> i32 {
             refused += 1;
         }
         for (sig, detail) in vs {
-            // the signature names the phase and the panic site; the corruption
-            // class goes into the detail
+            // The signature names the phase and the panic site; the corruption
+            // class goes into the detail.  A panic whose site is inside a
+            // dependency (path begins with "<crate>-<version>/") is keyed by
+            // the site alone: which library call happened to reach it does
+            // not distinguish defects of the dependency.
+            let site = sig.rsplit(':').next().unwrap_or("");
+            let in_dependency = site.split('/').next().map(|c| c.contains('-') && c.chars().any(|x| x.is_ascii_digit())).unwrap_or(false);
+            let sig = if in_dependency { format!("panic-in-dependency:{}", site) } else { sig };
             emit(&sig, &format!("[{}] {}", class, detail), &desc, idx);
         }
     }
